@@ -147,15 +147,15 @@ def check_tissue(res, spec, exprs, label):
     own_ok = " && ".join(
         [f"forallb (fun p => (if (length (fst p) =? 2)%nat then setZ_eqb else listZ_eqb) (own_cells ownc (fst p)) (snd p)) "
          f"(combine earr {C.zlistlist(own)})"])
-    edges_l = "[" + "; ".join("[" + "; ".join(f"Some {C.zlit(x)}" for x in fr.big_edges[i].edges) + "]" for i in range(len(bel))) + "]"
+    edges_l = C.zlistlist([list(fr.big_edges[i].edges) for i in range(len(bel))])
     e = (pre + f"let earr := create_edges_new junc cells in "
          f"listlistZ_eqb earr {C.zlistlist(bel)} && "
          f"listZ_eqb (map (fun ie => Z.of_nat (fst ie)) (frame_internal ncells earr)) {C.zlist(got_int)} && "
          f"listB_eqb (map (big_edge_external ncells) earr) [{'; '.join(C.blit(fr.big_edges[i].external) for i in range(len(bel)))}] && "
          f"listZ_eqb (map Z.of_nat (tension_table_ids ncells earr)) {C.zlist(tid)} && "
          f"{own_ok} && "
-         f"forallb (fun p => forallb (fun q => optZ_eqb (fst q) (snd q)) (combine (iface_edges owne (fst p)) (snd p)) && "
-         f"(length (iface_edges owne (fst p)) =? length (snd p))%nat) (combine earr {edges_l})")
+         f"forallb (fun p => forallb (fun q => memZ (snd q) (fst q)) (combine (iface_edge_candidates owne (fst p)) (snd p)) && "
+         f"(length (iface_edge_candidates owne (fst p)) =? length (snd p))%nat) (combine earr {edges_l})")
     exprs.append((e, replay))
 
 
